@@ -1,6 +1,8 @@
 // Harness helpers for src/dp/peripheral_set.rs (crate::dp::peripheral_set::verif under cfg(kani)).
 
 use super::*;
+#[allow(unused_imports)]
+use crate::verif_support::*;
 
 /// A storage slot with the given content (sparse storages cannot be built through `add()`).
 pub(crate) fn mk_slot<'a>(p: Option<Peripheral<'a>>) -> PeripheralStorage<'a> {
